@@ -399,6 +399,10 @@ def gen_groups(ck: Check):
         (30, ["translate", "comment-open", "endcomment", "endtranslate", "text"]), (30, ["translate", "liquid", "endtranslate", "text"]),
         (30, ["translate", "assign", "endtranslate", "text"]), (30, ["for", "translate", "break", "endtranslate", "text", "endfor"]),
         (30, ["translate-bad", "text", "endtranslate", "text"]), (30, ["translate", "text", "plural", "text", "plural", "text", "endtranslate"]),
+        # a macro that calls itself (possible since fix bfab21e): cut off by ContextDepthError after 31 bodies
+        (30, ["macro", "call", "endmacro", "call"]), (30, ["macro", "text", "call", "endmacro", "call", "text"]),
+        (30, ["macro", "text", "call", "text", "endmacro", "text", "call"]), (30, ["macro", "out", "call", "endmacro", "call", "call"]),
+        (1, ["macro", "call", "endmacro", "call"]), (30, ["macro", "if", "call", "endif", "endmacro", "call", "text"]),
     ]
     for lim in sorted({l for l, _ in fixed}):
         seqs = [tuple(IDX[n] for n in names) for l, names in fixed if l == lim]
@@ -584,7 +588,7 @@ def run(ck: Check) -> None:
     ck.assumptions = [
         "partials are static text ('p', 'base'); include/render arguments, for/with binding, block inheritance beyond a block-less parent, "
         "tablerow cols/limit/offset, translation catalogs and the snippet tag are outside the model",
-        "macro calls nested deeper than 8 levels render nothing in the model (never reached by the generators)",
+        "a macro call from a caller deeper than context_depth_limit 30 raises ContextDepthError in the model, as in the engine (default limit only)",
         "expression text is never one of the words that stop the junk skipping after a case tag",
     ]
     ck.proof()
